@@ -123,7 +123,7 @@ func parseBounded(rep *Report, text, tag string, expect int, checkName, boundDes
 
 
 func boundedKind(tag string) string {
-	if tag == "c10sched" {
+	if tag == "c10sched" || tag == "c11sched" {
 		return "bounded enumeration of thread schedules of the real functions under a cooperative scheduler (depth-first up to a cap, then random schedules; not a proof)"
 	}
 	if tag == "c06map" {
